@@ -292,6 +292,12 @@ func runC06(x *core.Ctx) {
 			return
 		}
 	}
+	// "depends on its own bytes only": the same frame decoded under every
+	// iteration order of every map the decoder ranges over (the instrumenter's
+	// map-range seam; Go randomises these orders from one call to the next)
+	if !c06MapOrders(x, frames, alone) {
+		return
+	}
 	inSub := map[int]bool{}
 	for _, i := range sub {
 		inSub[i] = true
@@ -324,7 +330,120 @@ func runC06(x *core.Ctx) {
 	})
 }
 
+// c06OrderVariants: the orderings tried at every map range met while one
+// frame is decoded: for n <= 3 entries they are all n! of them.
+const c06OrderVariants = 6
+
+func c06Perm(n, variant int) []int {
+	p := make([]int, n)
+	for i := range p {
+		p[i] = i
+	}
+	if n < 2 {
+		return p
+	}
+	switch variant {
+	case 0: // reversed
+		for i := range p {
+			p[i] = n - 1 - i
+		}
+	case 1: // rotated left
+		for i := range p {
+			p[i] = (i + 1) % n
+		}
+	case 2: // rotated right
+		for i := range p {
+			p[i] = (i + n - 1) % n
+		}
+	case 3:
+		p[0], p[1] = p[1], p[0]
+	case 4:
+		p[n-1], p[n-2] = p[n-2], p[n-1]
+	case 5: // odd positions first
+		k := 0
+		for i := 1; i < n; i += 2 {
+			p[k] = i
+			k++
+		}
+		for i := 0; i < n; i += 2 {
+			p[k] = i
+			k++
+		}
+	}
+	return p
+}
+
+func c06OrderFrames(frames []CFrame) []CFrame {
+	out := append([]CFrame{}, frames...)
+	// frames holding one property more than allowed, next to repeated user
+	// properties: whatever a decoder tracks per identifier while decoding, it
+	// may walk in map order
+	for _, v := range validCorpus() {
+		if !strings.HasSuffix(v.Name, ".rich") {
+			continue
+		}
+		hdr := 0
+		for _, f := range v.Fields {
+			if f.Kind == spec.FRemLen {
+				hdr = f.End
+			}
+		}
+		for i, m := range propertyInsertions(v, hdr) {
+			out = append(out, CFrame{Name: fmt.Sprintf("%s+property#%d", v.Name, i), B: m, Type: v.B[0] >> 4})
+		}
+	}
+	return out
+}
+
+func c06OrderExec(f CFrame, variant int) *core.Finding {
+	resetGlobals()
+	p, err, res := readPacket(&env.Reader{Data: f.B}, stepBudget(len(f.B)))
+	ref := outcome(p, err, res)
+	resetGlobals()
+	ranges := 0
+	mq.VerifOrderHook = func(site, n int) []int { ranges++; return c06Perm(n, variant) }
+	defer func() { mq.VerifOrderHook = nil }()
+	p, err, res = readPacket(&env.Reader{Data: f.B}, stepBudget(len(f.B)))
+	got := outcome(p, err, res)
+	mq.VerifOrderHook = nil
+	if got == ref {
+		return nil
+	}
+	return &core.Finding{Class: "map-order-dependent", Sig: map[string]string{"type": fmt.Sprint(f.Type)},
+		Detail: fmt.Sprintf("frame %s (% x): the result of ReadPacket follows the iteration order of a map (%d map ranges met): in sorted order %q, in ordering variant %d %q — the same bytes give different results from one call to the next", f.Name, clipBytes(f.B), ranges, clip(ref, 140), variant, clip(got, 140))}
+}
+
+func c06MapOrders(x *core.Ctx, frames []CFrame, alone []string) bool {
+	for _, f := range c06OrderFrames(frames) {
+		if len(f.B) > 70000 {
+			continue
+		}
+		if !x.Mine() {
+			continue
+		}
+		x.Eval("maporder")
+		for v := 0; v < c06OrderVariants; v++ {
+			x.R.Transitions++
+			x.R.Traces++
+			if fd := c06OrderExec(f, v); fd != nil {
+				ff, vv := f, v
+				x.Report(fd, func() core.Case {
+					return core.Case{Harness: "c06", Frame: hexOf(ff.B), Params: map[string]any{"maporder": vv, "name": ff.Name}}
+				}, func() *core.Finding { return c06OrderExec(ff, vv) })
+			}
+		}
+		if x.Expired() {
+			return false
+		}
+	}
+	return true
+}
+
 func replayC06(c core.Case) *core.Finding {
+	if _, ok := c.Params["maporder"]; ok {
+		b := unhex(c.Frame)
+		return c06OrderExec(CFrame{Name: fmt.Sprint(c.Params["name"]), B: b, Type: b[0] >> 4}, paramInt(c.Params, "maporder"))
+	}
 	frames := c06Frames()
 	return c06Exec(frames, c.Choices, paramInt(c.Params, "tail"), c06Alone(frames), paramInt(c.Params, "reader"))
 }
